@@ -555,7 +555,7 @@ impl DocumentInline {
                         line: link.inline_range.start.line,
                         // Exclude title and parentheses from the range
                         character: link.inline_range.start.character
-                            + self.to_plain_text().len()
+                            + self.to_plain_text().encode_utf16().count()
                             + 3,
                     },
                     end: Position {
